@@ -1,3 +1,123 @@
 import Nv.OracleIO
-/-! oracle_c16 — stub (model not built yet): answers `bad-op` to every line. -/
-def main : IO Unit := Nv.oracleMain (fun (_ : Unit) _ => ((), "bad-op")) ()
+import Nv.Model.C16
+import Nv.Gen.C16
+/-!
+oracle_c16 — line protocol (one world per script; the first line (re)initialises it):
+  `init <max> <pipe|rt|wt|tcp>`      → `ok`
+  `conn`                              → `r=acc<k>` | `r=rej`, then the world
+  `send <k> <hex|->`                  → `r=ok` | `r=closed`, then the world
+  `close|pclose|drain|hold|pdata|rerr|rto|herr|rdl|hpanic|hpanicnil|werr|wto|wdl|start <k>` → `r=ok`, then the world
+World: ` n=<ConnCount> rej=<closed on accept> | <k>:x<OnExit calls>,c<conn.Close calls>,l<live loops>,d=<hex read by peer>,rd=<handler reads>`
+After every line all sessions run to quiescence. Mode `rt`: every read deadline expires before the next
+observation; mode `wt`: every blocked write times out before the next observation.
+The configuration is the one regenerated from the source (`Nv.Gen.C16.cfg`).
+-/
+open Nv Nv.C16
+
+inductive Mode | pipe | rt | wt | tcp
+deriving DecidableEq
+
+structure OState where
+  live : Bool := false
+  mode : Mode := .pipe
+  w : World := { max := 0 }
+
+def cfg : Cfg := Nv.Gen.C16.cfg
+
+def hexVal (c : Char) : Option Nat :=
+  if '0' ≤ c ∧ c ≤ '9' then some (c.toNat - '0'.toNat)
+  else if 'a' ≤ c ∧ c ≤ 'f' then some (c.toNat - 'a'.toNat + 10)
+  else none
+
+def parseHexL : List Char → Option (List Nat)
+  | [] => some []
+  | a :: b :: rest => do
+    let x ← hexVal a
+    let y ← hexVal b
+    let r ← parseHexL rest
+    pure ((x * 16 + y) :: r)
+  | _ => none
+
+def parseHex (s : String) : Option (List Nat) := if s == "-" then some [] else parseHexL s.toList
+
+def hexDigit (n : Nat) : Char := if n < 10 then Char.ofNat ('0'.toNat + n) else Char.ofNat ('a'.toNat + n - 10)
+
+def showHex (l : List Nat) : String :=
+  if l.isEmpty then "-" else String.ofList (l.flatMap fun b => [hexDigit (b / 16 % 16), hexDigit (b % 16)])
+
+def loops (s : Sess) : Nat := (if s.sendPc = .done then 0 else 1) + (if s.recvPc = .done then 0 else 1)
+
+def showSess (k : Nat) (s : Sess) : String :=
+  s!"{k}:x{s.exits},c{s.closes},l{loops s},d={showHex s.delivered},rd={s.reads}" ++ (if s.crashed then ",crash" else "")
+
+def showSessions : Nat → List Sess → List String
+  | _, [] => []
+  | k, s :: rest => showSess k s :: showSessions (k + 1) rest
+
+def showWorld (w : World) : String :=
+  s!" n={w.count} rej={w.rejected}" ++ String.join ((showSessions 0 w.sess).map (" | " ++ ·))
+
+/-- what real time does between two observations in the timeout modes -/
+def timePasses (m : Mode) (s : Sess) : Sess :=
+  match m with
+  | .rt => event cfg s .readFail
+  | .wt => match s.sendPc with
+    | .writing _ => event cfg s .writeFail
+    | _ => s
+  | _ => s
+
+def finishLine (st : OState) (w : World) (r : String) : OState × String :=
+  let w' := { w with sess := w.sess.map (fun s => timePasses st.mode (settle cfg s)) }
+  ({ st with w := w' }, s!"r={r}" ++ showWorld w')
+
+def onSess (st : OState) (k : String) (f : Sess → Sess × String) : OState × String :=
+  match k.toNat? with
+  | none => (st, "bad-op")
+  | some k =>
+    match st.w.sess[k]? with
+    | none => (st, "bad-op")
+    | some s =>
+      let (s', r) := f s
+      finishLine st { st.w with sess := st.w.sess.set k s' } r
+
+def envs (es : List Env) (s : Sess) : Sess × String := (es.foldl (event cfg) s, "ok")
+
+def step (st : OState) (line : String) : OState × String :=
+  match words line with
+  | ["init", m, mode] =>
+    match m.toInt?, (if mode == "pipe" then some Mode.pipe else if mode == "rt" then some Mode.rt
+        else if mode == "wt" then some Mode.wt else if mode == "tcp" then some Mode.tcp else none) with
+    | some m, some mode => ({ live := true, mode := mode, w := { max := m } }, "ok")
+    | _, _ => (st, "bad-op")
+  | op :: args =>
+    if !st.live then (st, "bad-op") else
+    match op, args with
+    | "conn", [] =>
+      match wstep cfg st.w .connect with
+      | some w' =>
+        let r := if w'.sess.length > st.w.sess.length then s!"acc{st.w.sess.length}" else "rej"
+        finishLine st w' r
+      | none => (st, "bad-op")
+    | "send", [k, h] =>
+      match parseHex h with
+      | none => (st, "bad-op")
+      | some bs => onSess st k fun s => (event cfg s (.send bs), if sendAccepted s then "ok" else "closed")
+    | "close", [k] => onSess st k (envs [.close])
+    | "pclose", [k] => onSess st k (envs [.peerClose])
+    | "drain", [k] => onSess st k (envs [.peerDrain])
+    | "hold", [k] => onSess st k (envs [.peerHold])
+    | "pdata", [k] => onSess st k (envs [.peerData])
+    | "rerr", [k] => onSess st k (envs [.readFail])
+    | "rto", [k] => onSess st k (envs [.readFail])
+    | "herr", [k] => onSess st k (envs [.readFail])
+    | "rdl", [k] => onSess st k (envs [.peerData, .readFail])
+    | "hpanic", [k] => onSess st k (envs [.handlerPanic])
+    | "hpanicnil", [k] => onSess st k (envs [.handlerPanic])
+    | "werr", [k] => onSess st k (envs [.writeFail])
+    | "wto", [k] => onSess st k (envs [.writeFail])
+    | "wdl", [k] => onSess st k (envs [.writeFail])
+    | "start", [k] => onSess st k (envs [])
+    | _, _ => (st, "bad-op")
+  | _ => (st, "bad-op")
+
+def main : IO Unit := oracleMain step {}
